@@ -333,6 +333,10 @@ class NoReturn(Exception):
     """get_pathline used up the evaluation budget without returning (it would not return in practice)."""
 
 
+class ClientFault(Exception):
+    """The client's own exception, raised by its velocity callable (fault history of run_pathline)."""
+
+
 EVAL_BUDGET = 20_000  # velocity evaluations per get_pathline call; calls that return need < 1e3 (maximum kept in the evidence)
 
 
@@ -490,7 +494,26 @@ def run_pathline(job):
                     raise
         elif form == 2:
             kw = dict(rtol=1e-8, atol=1e-10 * float(np.max(hi - lo)))
-        info["call_form"] = ("plain", "after-coarse-preview", "tight-tolerances", "plain")[form]
+        elif form == 3:
+            # fault history: a call for ANOTHER final location that succeeds, then a call with the judged inputs whose
+            # velocity callable fails part-way through the integration (the client's own exception), then the judged
+            # call - identical inputs, healthy callable.  A failed call must leave nothing behind.
+            other = np.where(np.arange(3) == ih, 0.5 * (lo + hi) + 0.11 * (hi - lo), np.where(np.arange(3) == iv, 0.5 * (lo + hi) - 0.07 * (hi - lo), xf))
+            cnt = [0]
+
+            def failing(t, x):
+                cnt[0] += 1
+                if cnt[0] > 7:
+                    raise ClientFault("velocity callable failed")
+                return u(t, x)
+
+            for args in ((other, budgeted(u, [0])), (xf_arg, failing)):
+                try:
+                    pathlines.get_pathline(args[0], args[1], L, lo, hi, a["max_strain"], regular_steps=a["steps"])
+                except BaseException as ex:  # noqa: BLE001 - neither call is judged
+                    if isinstance(ex, (KeyboardInterrupt, SystemExit, MemoryError)):
+                        raise
+        info["call_form"] = ("plain", "after-coarse-preview", "tight-tolerances", "after-a-failed-call")[form]
         ts, pos = pathlines.get_pathline(xf_arg, budgeted(u, nev), L, lo, hi, a["max_strain"], regular_steps=a["steps"], **kw)
     except NoReturn as ex:
         ev[0]["out"] = "NoReturn"
